@@ -16,6 +16,10 @@ CONSTANTS
   RETAINCHECK = TRUE
   TT = 8
   MTC = 64
+  UT = 6
+  SMIN = 3
+  SMAX = 9
+  XSKIP = FALSE
 CONSTRAINT Report
 INVARIANT TraceInv
 CHECK_DEADLOCK FALSE
